@@ -5,10 +5,12 @@ set -u
 d=$1; shift
 git -C /repo apply $d/patch.diff || { echo "patch does not apply"; exit 9; }
 cd /verif
+rm -rf /verif/out/evidence.bak; cp -r /verif/evidence /verif/out/evidence.bak
 for p in "$@"; do
   out=$(./check $p ${TIER:-quick} 2>&1); rc=$?
   echo "$out" | grep -v "^built" | cut -c1-260 | head -${LINES_MAX:-5}
   echo "SEEDED $(basename $d) check=$p rc=$rc"
 done
 git -C /repo checkout -- .
+rm -rf /verif/evidence; mv /verif/out/evidence.bak /verif/evidence
 rm -f /verif/replays/*.tape
